@@ -10,12 +10,12 @@ from fractions import Fraction as F
 if __name__ != "__main__":
     from core import cz, cn, cq, clist, copt, VERIF
     sys.path.insert(0, os.path.join(VERIF, "translator"))
-    import tr_dist
+    import tr_dist, tr_distkern
 
 PID = "C13"
 PROPS_FILE = "Props/C13.v"
 MODEL_TARGETS = ["Model/Dist.vo", "Gen/DistValidGen.vo"]
-GEN_FILES = ["Gen/DistValidGen.v"]
+GEN_FILES = ["Gen/DistValidGen.v", "Gen/DistKernGen.v"]
 CASE_HEADER = ("From Coq Require Import List ZArith QArith.\n"
                "From EV Require Import PFor DistBase DistValidGen Dist.\nImport ListNotations.\n")
 RULE = ("random n x m matrices (n 0..40, m 0..6) and targets over int8/16/32/64, float32/64 (uint8..64 and ints for "
@@ -26,8 +26,18 @@ RULE = ("random n x m matrices (n 0..40, m 0..6) and targets over int8/16/32/64,
         "thread count; malformed stream: X of rank 1/3, y of rank 2, width mismatch both ways, mixed and unsupported "
         "dtypes, out of wrong dtype/length/rank (0-d, 2-d). Each case is evaluated on the real code and on the Coq "
         "model (translated validation + strided views + prange phases + exact-double arithmetic). "
+        "Round-2 streams, each run under every thread count of the tier and compared BYTE-EXACTLY with the 1-thread run "
+        "of the same data: (round) one or three rows of 1500-2048 features, one coordinate of magnitude 2^53 (2^27 for "
+        "euclidean) followed by ones, float64/float32/int64 -- any change of the summation order changes the double; "
+        "(ham-wide) int8/uint8/int16 rows differing from y in 0, 1, 127..129, 255..257, m coordinates, m up to 300; "
+        "(remainder) n = 2T+1, 3T-1, 2T+T/2+1 rows for T threads, all distances non-zero; (outview) out= a column of a "
+        "C-ordered (n,3) table, buf[::2], buf[::-1], garbage-filled, whose cells must hold the result afterwards and "
+        "whose neighbours must be untouched. "
         "non-trivial := valid call with n >= 2, m >= 1 and a non-zero result")
 TRUSTED = ["translator/tr_dist.py (validation functions of libdist.pyx -> Gen/DistValidGen.v)",
+           "translator/tr_distkern.py (loop nests / statements of _euclidean, _manhattan, _hamming, fused types, wrappers; "
+           "cluster/util.py:_get_distance_method -> Gen/DistKernGen.v); a statement `out[k] op= e` is one atomic "
+           "read-modify-write of the model",
            "modelled not verified: Cython typed-buffer access (strided addressing, fused-type dispatch), OpenMP "
            "(a prange is a set of iterations executed in some interleaving, barrier at the end of each prange), "
            "IEEE-754 double arithmetic (an operation whose exact result is an integer of magnitude <= 2^53, times a "
@@ -52,13 +62,15 @@ SUPPORT = {"euclidean": ["int8", "int16", "int32", "int64", "float32", "float64"
 COQ_METRIC = {"euclidean": "Euclid", "manhattan": "Manhattan", "hamming": "Hamming"}
 XLAYOUTS = ["C", "F", "T", "strided", "neg", "negrows", "colslice"]
 YLAYOUTS = ["C", "strided", "neg"]
-OUTKINDS = [None, None, "ok", "ok", "strided", "neg"]
+OUTKINDS = [None, None, "ok", "ok", "strided", "neg", "col"]
 BADOUT = ["f32", "int", "len+", "len-", "2d", "0d"]
 BADIN = ["x1d", "x3d", "y2d", "wide-y", "narrow-y", "mixed", "unsupported"]
 
 
 def translate(repo):
-    return tr_dist.translate(repo)
+    files = dict(tr_dist.translate(repo))
+    files.update(tr_distkern.translate(repo))
+    return files
 
 
 # ----------------------------------------------------------------------------- building arrays
@@ -141,6 +153,8 @@ def build(c):
             obase = np.full((2 * n,), float(init), dtype=f8); out = obase[::2]
         elif ok == "neg":
             obase = np.full((n,), float(init), dtype=f8); out = obase[::-1]
+        elif ok == "col":      # a column of a C-ordered distance table
+            obase = np.full((n, 3), float(init), dtype=f8); out = obase[:, 1]
         elif ok == "f32":
             obase = np.full((n,), float(init), dtype=np.float32); out = obase
         elif ok == "int":
@@ -212,6 +226,15 @@ def _run_one(c):
         res["out_holds"] = bool(np.array_equal(np.asarray(out), np.asarray(r), equal_nan=True))
         if c["out"] == "strided":
             res["guard_ok"] = bool(np.array_equal(b["obase"][1::2], ob0[1::2]))
+        if c["out"] == "col":
+            res["guard_ok"] = bool(np.array_equal(b["obase"][:, 0], ob0[:, 0]) and
+                                   np.array_equal(b["obase"][:, 2], ob0[:, 2]))
+        # what the CALLER finds in the cells of its buffer (read through the parent array)
+        own = {"ok": lambda a: a, "strided": lambda a: a[::2], "neg": lambda a: a[::-1],
+               "col": lambda a: a[:, 1]}.get(c["out"])
+        if own is not None:
+            cells = [float(v) for v in own(b["obase"])]
+            res["out_val"] = [str(F(v)) if math.isfinite(v) else repr(v) for v in cells]
     return res
 
 
@@ -293,7 +316,12 @@ def run_impl(c):
         if all(_key(x) != k for x in todo):
             todo.append(c)
         _run_batches(todo)
-    return _CACHE[k]
+    r = _CACHE[k]
+    ref = c.get("ref_threads")
+    if ref is not None and ref != c["threads"]:
+        rs = run_impl(dict(c, threads=ref))
+        r = dict(r, ref_val=rs.get("val"), ref_err=rs.get("err"))
+    return r
 
 
 # ----------------------------------------------------------------------------- generation
@@ -393,6 +421,76 @@ def _bad_case(rng, threads_pool):
     return c
 
 
+def _base(metric, dtype, X, y, threads, style, **kw):
+    c = {"metric": metric, "dtype": dtype, "n": len(X), "m": len(y), "k": 0, "vals": X, "y": y, "xlayout": "C",
+         "ylayout": "C", "out": None, "init": 7, "threads": threads, "style": style, "bad": None, "ref_threads": 1}
+    c.update(kw)
+    return c
+
+
+def _round2(rng, pool, tier):
+    """deterministic-shape streams of round 2; every data set is run under every thread count of the pool
+    (including 1, the reference of the byte-exact comparison)"""
+    cases = []
+    pool = sorted(set(pool) | {1})
+    # ---- (round) rounding-sensitive rows: a huge coordinate first, then ones
+    for metric, dtype, n in (("manhattan", "float64", 1), ("euclidean", "float64", 1), ("manhattan", "int64", 1),
+                             ("euclidean", "float32", 3), ("manhattan", "float32", 1), ("euclidean", "int64", 1)):
+        m = rng.choice([1500, 2048, 1777])
+        big = 2 ** 53 if metric == "manhattan" else 2 ** 27
+        rows = []
+        for i in range(n):
+            row = [big] + [1] * (m - 1)
+            if i == 1:
+                row = [1] * (m - 1) + [big]          # the same multiset, huge coordinate last
+            if i == 2:
+                row = [1] * (m // 2) + [-big] + [1] * (m - m // 2 - 1)
+            rows.append(row)
+        lay = rng.choice(["C", "F", "strided"])
+        for t in pool:
+            cases.append(_base(metric, dtype, rows, [0] * m, t, "round", xlayout=lay))
+    # ---- (ham-wide) narrow element types, more differing coordinates than the type can count
+    for dtype, m in (("int8", 128), ("int8", 129), ("int8", 200), ("int8", 300), ("uint8", 256), ("uint8", 257),
+                     ("uint8", 300), ("uint8", 255), ("int16", 300)):
+        lo, hi = INT_RANGE[dtype]
+        y = [rng.randint(max(lo, -3), 3) for _ in range(m)]
+        rows = []
+        for ndiff in (m, 0, 1, 127, 128, 129, 255, 256, 257, m - 1):
+            if 0 <= ndiff <= m:
+                idx = set(rng.sample(range(m), ndiff))
+                rows.append([y[j] + 1 if j in idx else y[j] for j in range(m)])
+        lay = rng.choice(["C", "F", "neg"])
+        ok = rng.choice([None, "ok", "col"])
+        for t in (pool if tier != "quick" else [1] + rng.sample(pool[1:], 2)):
+            cases.append(_base("hamming", dtype, rows, y, t, "ham-wide", xlayout=lay, out=ok))
+    # ---- (remainder) row counts that no thread count divides, at least two rows per thread
+    for t in pool:
+        if t < 2:
+            continue
+        for n in sorted({2 * t + 1, 3 * t - 1, 2 * t + t // 2 + 1}):
+            if n % t == 0:
+                continue
+            for metric in ("euclidean", "manhattan", "hamming"):
+                dtype = rng.choice(SUPPORT[metric])
+                m = rng.choice([1, 3, 6])
+                y = [rng.randint(0, 3) for _ in range(m)]
+                rows = [[y[j] + 1 + (i + j) % 3 for j in range(m)] for i in range(n)]      # every distance > 0
+                lay, ok = rng.choice(["C", "F"]), rng.choice([None, "ok", "strided"])
+                for tt in (1, t):
+                    cases.append(_base(metric, dtype, rows, y, tt, "remainder", xlayout=lay, out=ok, rem_of=t))
+    # ---- (outview) non-contiguous caller buffers
+    for metric in ("euclidean", "manhattan", "hamming"):
+        for ok in ("col", "strided", "neg"):
+            for n, m in ((2, 1), (5, 3), (33, 2)):
+                dtype = rng.choice(SUPPORT[metric])
+                y = [rng.randint(0, 3) for _ in range(m)]
+                rows = [[y[j] + (i + 2 * j) % 4 for j in range(m)] for i in range(n)]
+                init, lay = rng.choice([-777, 7]), rng.choice(["C", "F", "colslice"])
+                for t in (1, rng.choice(pool[1:])):
+                    cases.append(_base(metric, dtype, rows, y, t, "outview", out=ok, init=init, xlayout=lay))
+    return cases
+
+
 def generate(rng, tier):
     pool = [1, 2, 3, 4, 8, 16] if tier == "quick" else list(range(1, 17))
     nv, nb = (360, 120) if tier == "quick" else (3200, 800)
@@ -410,6 +508,7 @@ def generate(rng, tier):
         cases.append(_case(rng, pool))
     for _ in range(nb):
         cases.append(_bad_case(rng, pool))
+    cases += _round2(rng, pool, tier)
     _PENDING[:] = cases
     return cases
 
@@ -463,6 +562,19 @@ def oracle(c, r):
             out.append(("out-buffer", "caller's out buffer is not the result: %s" % {x: r.get(x) for x in ("ret_is_out", "out_holds")}))
         if c["out"] == "strided" and not r.get("guard_ok"):
             out.append(("out-buffer", "elements between the strided out cells were modified"))
+    if c["out"] is not None and "out_val" in r and r["val"] is not None and r["out_val"] != r["val"]:
+        bad = [i for i, (a, b) in enumerate(zip(r["out_val"], r["val"])) if a != b][:4]
+        out.append(("out-buffer", "caller's %s buffer does not hold the result after the call: cells %s hold %s, "
+                    "result %s" % (c["out"], bad, [r["out_val"][i] for i in bad], [r["val"][i] for i in bad])))
+    if "ref_val" in r or "ref_err" in r:
+        if r.get("ref_err") is not None or r["ref_val"] != r["val"]:
+            diff = [] if not (r.get("ref_val") and r["val"]) else \
+                [i for i, (a, b) in enumerate(zip(r["ref_val"], r["val"])) if a != b][:4]
+            out.append(("thread-count-changes-result",
+                        "%s %s n=%d m=%d: result with %d threads differs from the result with %s thread(s) at rows %s: "
+                        "%s vs %s" % (c["metric"], c["dtype"], n, m, c["threads"], c.get("ref_threads"), diff,
+                                      [float(F(r["val"][i])) for i in diff],
+                                      [float(F(r["ref_val"][i])) for i in diff])))
     metric = c["metric"]
     if metric == "hamming" and m == 0:
         return out
@@ -529,6 +641,8 @@ def coq_check(c, r):
         impl = "(@None (list Q))"
     elif r["val"] is None or (c["metric"] == "hamming" and c["m"] == 0):
         return None
+    elif c.get("style") == "round" and c["threads"] != c.get("ref_threads"):
+        return None        # thousands of features: the model is evaluated once per data set (the 1-thread case)
     else:
         impl = "(Some %s)" % clist([F(v) for v in r["val"]], cq, "Q")
     return "agrees %s %s %s %s %s %s" % (_coq_parts(c) + (impl,))
@@ -555,6 +669,16 @@ def tags(c, r):
         t.append("valid")
         if c["threads"] > 1 and c["n"] > c["threads"]:
             t.append("multi-chunk")
+        if c["threads"] > 1 and c["n"] >= 2 * c["threads"] and c["n"] % c["threads"]:
+            t.append("remainder-rows")
+        if "ref_val" in r:
+            t.append("cross-thread-compared")
+        if c["metric"] == "hamming" and c["dtype"] in ("int8", "uint8") and "err" not in r:
+            lim = 128 if c["dtype"] == "int8" else 256
+            if any(sum(1 for a, b in zip(row, c["y"]) if a != b) >= lim for row in c["vals"]):
+                t.append("hamming-count-exceeds-element-type")
+        if c["out"] in ("col", "strided", "neg") and c["n"] >= 2:
+            t.append("noncontiguous-out")
         if not _exact_domain(c):
             t.append("outside-exact-double")
     if c["n"] == 0:
@@ -568,7 +692,9 @@ ESSENTIAL_TAGS = ["metric:euclidean", "metric:manhattan", "metric:hamming", "x:F
                   "out:ok", "out:strided", "out:None", "threads:1", "threads:2", "threads:16", "multi-chunk",
                   "style:extreme", "style:d9", "rejected", "bad:x1d", "bad:narrow-y", "bad:wide-y", "bad:mixed",
                   "bad:unsupported", "bad:out:f32", "bad:out:len+", "bad:out:2d", "bad:out:0d", "valid",
-                  "dtype:int32", "dtype:int64", "dtype:float32", "dtype:float64", "dtype:int8", "dtype:uint8"]
+                  "dtype:int32", "dtype:int64", "dtype:float32", "dtype:float64", "dtype:int8", "dtype:uint8",
+                  "style:round", "style:ham-wide", "style:remainder", "style:outview", "out:col", "remainder-rows",
+                  "cross-thread-compared", "hamming-count-exceeds-element-type", "noncontiguous-out"]
 
 
 def search(rng, tier):
